@@ -74,21 +74,91 @@ def build_harness(profile="debug"):
     return rc == 0, binp, err[-4000:], dt
 
 
+# which coq/Gen modules each translator writes (an unknown translator is taken to concern every property)
+GEN_OUTPUTS = {"gen_consts.py": ["Consts", "Sizes"], "gen_exprs.py": ["Exprs"], "gen_import.py": ["ImportFacts"],
+               "gen_lazy.py": ["LazyConsts"], "gen_lockseqs.py": ["LockSeqs"], "gen_openlock.py": ["OpenOrder"],
+               "gen_cursor.py": ["CursorOrder"]}
+FAILED_GEN = {}      # "Gen/X" -> message of the translator that could not regenerate it (filled by regen)
+
+
 def regen(harness_bin):
+    """Runs every translator.  A translator that fails (a source pattern no longer matches) leaves the
+    PREVIOUS generated file in place, so that the rest of the development still builds, and is recorded
+    in FAILED_GEN: `gen_concerns` then tells a check whether its theorems or its extracted model depend
+    on the stale module — only those properties count as broken (no longer shown to hold)."""
     env = dict(ENV, ANYDB_HARNESS_BIN=harness_bin)
-    rc, out, err, dt = run([sys.executable, os.path.join(ROOT, "tools", "gen_consts.py")], env=env, timeout=120)
-    ok = rc == 0
-    msgs = (out + err).strip()
-    # further translators: every tools/gen_*.py (each writes its own coq/Gen/<X>.v and fails loudly)
-    for extra in sorted(os.listdir(os.path.join(ROOT, "tools"))):
-        if not (extra.startswith("gen_") and extra.endswith(".py")) or extra == "gen_consts.py":
+    gen_dir = os.path.join(COQ, "Gen")
+    os.makedirs(gen_dir, exist_ok=True)
+    before = {f: open(os.path.join(gen_dir, f)).read() for f in os.listdir(gen_dir) if f.endswith(".v")}
+    FAILED_GEN.clear()
+    ok, msgs = True, ""
+    gens = ["gen_consts.py"] + sorted(x for x in os.listdir(os.path.join(ROOT, "tools"))
+                                      if x.startswith("gen_") and x.endswith(".py") and x != "gen_consts.py")
+    for g in gens:
+        rc, o, e, _ = run([sys.executable, os.path.join(ROOT, "tools", g)], env=env, timeout=120)
+        msg = (o + e).strip()
+        msgs += ("\n" if msgs and msg else "") + msg
+        if rc == 0:
             continue
-        rc2, o2, e2, _ = run([sys.executable, os.path.join(ROOT, "tools", extra)], env=env, timeout=120)
-        ok = ok and rc2 == 0
-        msgs += "\n" + (o2 + e2).strip()
+        ok = False
+        outs = GEN_OUTPUTS.get(g)
+        for m in (outs if outs is not None else ["*"]):
+            FAILED_GEN["Gen/" + m] = f"{g}: {msg.splitlines()[-1] if msg else 'failed'}"
+            if m == "*":
+                continue
+            path = os.path.join(gen_dir, m + ".v")
+            if m + ".v" in before:
+                if not os.path.exists(path) or open(path).read() != before[m + ".v"]:
+                    open(path, "w").write(before[m + ".v"])       # keep the stale file: dependents are flagged, not rebuilt
+            elif not os.path.exists(path):
+                open(path, "w").write("(* the translator failed and there is no previous version *)\n"
+                                      "Definition translator_failed : False := I.\n")
     with build_lock():
         run([sys.executable, os.path.join(ROOT, "tools", "mkcoqproject.py")], timeout=120)
     return ok, msgs.strip()
+
+
+def coq_closure(roots):
+    """Transitive dependencies (module paths like `Rawdb/Alloc`) of the given modules, read from the
+    dependency file coq_makefile maintains."""
+    deps = {}
+    try:
+        for line in open(os.path.join(COQ, ".Makefile.d")):
+            head, _, tail = line.partition(":")
+            tg = head.split()
+            if not tg or not tg[0].endswith(".vo"):
+                continue
+            deps[tg[0][:-3]] = [t[:-3] for t in tail.split() if t.endswith(".vo")]
+    except OSError:
+        return None
+    seen, todo = set(), list(roots)
+    while todo:
+        m = todo.pop()
+        if m in seen:
+            continue
+        seen.add(m)
+        todo += deps.get(m, [])
+    return seen
+
+
+def gen_concerns(prop, engines):
+    """The failed translators whose output the property's theorem files or the extracted models of its
+    engines depend on: [(module, message)]."""
+    if not FAILED_GEN:
+        return []
+    if "Gen/*" in FAILED_GEN:
+        return list(FAILED_GEN.items())
+    roots = ["Props/" + f[:-2] for f in prop_files(prop)]
+    for e in engines:
+        ext = os.path.join(COQ, "Extract", e + ".ext")
+        if os.path.exists(ext):
+            for line in open(ext):
+                if line.startswith("require"):
+                    roots += [m.replace(".", "/") for m in line.split()[1:]]
+    clo = coq_closure(roots)
+    if clo is None:
+        return list(FAILED_GEN.items())
+    return [(m, msg) for m, msg in FAILED_GEN.items() if m in clo]
 
 
 def coq_make(targets, timeout=3000):
@@ -256,6 +326,14 @@ def run_shard(engine, harness_bin, seed, cases, extra, tag):
         p = subprocess.run([harness_bin, engine, "--seed", str(seed), "--cases", str(cases)] + extra, stdout=f,
                            stderr=subprocess.PIPE, text=True, env=ENV, timeout=3400)
     if p.returncode != 0:
+        died = died_in(tr)
+        if died is not None and p.returncode < 0:
+            # the process was killed by a signal (abort on a failed allocation, stack overflow, SIGBUS on a
+            # mapping ...) while a case was running: that case is the failing input
+            cid, inp = died
+            return dict(n=1, mismatches=[], inputs={cid: inp}, obs={}, tags={}, trace=tr,
+                        violations=[dict(id=cid, input=inp, what=f"process-killed-by-signal-{-p.returncode} while this case was running "
+                                                                  f"(stderr: {p.stderr[-300:].strip()})")])
         return dict(error=f"harness exit {p.returncode}: {p.stderr[-2000:]}", trace=tr)
     with open(tr) as fin, open(ex, "w") as fout:
         q = subprocess.run([os.path.join(OCAML, "driver"), engine], stdin=fin, stdout=fout, stderr=subprocess.PIPE,
@@ -263,6 +341,23 @@ def run_shard(engine, harness_bin, seed, cases, extra, tag):
     if q.returncode != 0:
         return dict(error=f"driver exit {q.returncode}: {q.stderr[-2000:]}", trace=tr)
     return compare(tr, ex)
+
+
+def died_in(trace):
+    """The case that was running when the harness died: the last `R <id> <input>` line (printed by
+    util::running BEFORE a case is executed) that has no `O <id>` line after it."""
+    last = None
+    try:
+        for l in open(trace, errors="replace"):
+            k, _, rest = l.rstrip("\n").partition(" ")
+            cid, _, body = rest.partition(" ")
+            if k == "R":
+                last = (cid, body)
+            elif k == "O" and last and last[0] == cid:
+                last = None
+    except OSError:
+        return None
+    return last
 
 
 def compare(trace, exp):
